@@ -19,6 +19,10 @@ def fault_behaviours(backend, faults, handles=("h1",), pre=1, post=2):
                 steps.append({"a": "GC", "h": hh, "p": "latest"})
                 steps.append({"a": "AV", "h": hh, "p": "latest", "body": "small"})
             out.append({"steps": steps, "converge": True, "fault": f})
+            if f.get("kind") != "stop":
+                # the same in a long-lived process: the handle that saw the error is kept
+                keep = [dict(st, reopen_after_error=False) if st["a"] == "AV" else st for st in steps]
+                out.append({"steps": keep, "converge": True, "fault": f, "restart": False})
             if len(handles) == 1:
                 break
     return out
